@@ -136,7 +136,7 @@ int MPI_Send(const void *buf, int count, MPI_Datatype dt, int dest, int tag, MPI
 	(void)dt;
 	(void)comm;
 	enqueue(buf, count, dest, tag, true); /* a standard-mode send may be buffered */
-	sim_yield();
+	sim_yield_at("MPI_Send");
 	return 0;
 }
 
@@ -236,7 +236,7 @@ static int do_probe(int source, int tag, int *flag, MPI_Message *message, MPI_St
 int MPI_Improbe(int source, int tag, MPI_Comm comm, int *flag, MPI_Message *message, MPI_Status *status)
 {
 	(void)comm;
-	sim_yield();
+	sim_yield_at("MPI_Improbe");
 	return do_probe(source, tag, flag, message, status, false);
 }
 
@@ -390,7 +390,7 @@ int MPI_Iallreduce(const void *sendbuf, void *recvbuf, int count, MPI_Datatype d
 int MPI_Test(MPI_Request *req, int *flag, MPI_Status *status)
 {
 	(void)status;
-	sim_yield();
+	sim_yield_at("MPI_Test");
 	*flag = 0;
 	struct coll *c = *req;
 	if(!c) {
